@@ -81,6 +81,13 @@ CLAIMED["C13"] = {
   "design_ref": "DESIGN.md section 4 C13",
 }
 
+CLAIMED["C25"] = {
+  "text": "Static decision of the transparency and reporting clauses: inside the solver iteration every write to a Data field (and to context arrays read after the loop) is dominated by an early return on the array bound to ctx.done for that world; solver_niter only ever += 1 under that gate; done becomes True on every path where niter == opt.iterations; the ITERATIONS bit is set only by the two sibling finalisers exactly under (not converged and niter == iterations); graph-conditional and plain loops launch the same body.",
+  "note": STATIC_NOTE,
+  "technique": "binding-resolved dominance (must-guard) checks on path conditions of the solver-loop trace + sibling agreement (R-GATE)",
+  "design_ref": "DESIGN.md section 4 C25",
+}
+
 NOT_APPLICABLE = {
   "C06": "optimality of an iterative float solve is a runtime quantity; no structural necessary condition beyond what C24/C25 decide",
   "C18": "equivalence of broadphases depends on geometric conservativeness of numeric filters and sort/scan arithmetic; a sibling text-diff of the NXN/SAP kernels would alarm on harmless refactors",
